@@ -33,13 +33,17 @@ def run(ctx):
     ctx.assume('worker processes may be forked (default start method here); the rule does not depend on it: a worker '
                'drawing from inherited global state is reported whatever the start method')
     ctx.trust('Pool.starmap binds each tuple positionally to the worker and returns results in submission order')
-    rule_worker_rng(ctx, 'C08.R1')
-    rule_member_algebra(ctx, 'C08.R2')
-    rule_member_mean(ctx, 'C08.R2')
-    rule_zero_noise(ctx, 'C08.R3')
-    rule_no_shortcut(ctx, 'C08.R3')
-    rule_worker_pure(ctx, 'C08.R1')
-    rule_noise_update(ctx, 'C08.R4')
+    ctx.rule(rule_worker_rng, 'C08.R1')
+    ctx.rule(rule_member_algebra, 'C08.R2')
+    ctx.rule(rule_member_mean, 'C08.R2')
+    ctx.rule(rule_zero_noise, 'C08.R3')
+    ctx.rule(rule_no_shortcut, 'C08.R3')
+    from . import siftcore
+    ctx.rule(siftcore.rule_through_layer_loop, 'C08.R3', ctx.P.func('emd.sift.complete_ensemble_sift'),
+                                     ('emd.sift._sift_with_noise',), context={'noise_mode': 'single'},
+                                     allow_sift_call=True)
+    ctx.rule(rule_worker_pure, 'C08.R1')
+    ctx.rule(rule_noise_update, 'C08.R4')
 
 
 def _bound_for_site(P, fi, site):
